@@ -76,6 +76,62 @@ def wraps(seq):
     return sum(1 for a, b in zip(seq, seq[1:]) if gen.civil(b)[0] != gen.civil(a)[0])
 
 
+def mixed_leg(res, tier, seqs, work):
+    """a year-less log whose second line is stamped in ANOTHER notation (an application dumping an ISO-stamped line into
+    syslog): block-zero analysis sees two notations and re-reads block zero with the one it keeps. Judged: (1) the streamed
+    forms (.gz, .bz2) print byte for byte what the plain file prints at every block size; (2) in the plain output every
+    year-less line after the foreign one carries the inferred date of the reference oracle."""
+    pick = [q for q in seqs if len(q) >= 3 and wraps(q) >= 1]
+    pick = pick[::3] if tier == "quick" else pick
+    items = []
+    for si, seq in enumerate(pick):
+        for tzm, tzs_ in ((0, "+00:00"), (780, "+13:00")):
+            items.append((si, seq, tzm, tzs_, os.path.join(work, "m%d" % len(items))))
+
+    def one(it):
+        si, seq, tzm, tzs_, d = it
+        os.makedirs(d)
+        y, m, dd, h, mi, s_ = gen.civil(seq[0])
+        foreign = b"%04d-%02d-%02d %02d:%02d:%02d ERROR worker-3: traceback follows" % (y, m, dd, h, mi, s_)
+        lines = [syslog_line(t, i) for i, t in enumerate(seq)]
+        data = b"\n".join(lines[:1] + [foreign] + lines[1:]) + b"\n"
+        mtime_utc = seq[-1] - tzm * 60
+        common.write_file(os.path.join(d, "messages"), data)
+        common.write_file(os.path.join(d, "messages.gz"), gen.gz(data, mtime=mtime_utc))
+        common.write_file(os.path.join(d, "messages.bz2"), gen.bz(data))
+        for f in ("messages", "messages.bz2"):
+            os.utime(os.path.join(d, f), (mtime_utc, mtime_utc))
+        outs = {}
+        for bsz in (64, 128, 65536):
+            for f in ("messages", "messages.gz", "messages.bz2"):
+                args = ["--color", "never", "-u", "-d", DTFMT, "-t=" + tzs_, "--blocksz", str(bsz), f]
+                outs[(bsz, f)] = (args, common.run_s4(args, cwd=d))
+        shutil.rmtree(d, ignore_errors=True)
+        return it, data, mtime_utc, outs
+
+    for it, data, mtime_utc, outs in common.pmap(one, items):
+        si, seq, tzm, tzs_, d = it
+        res.distinct(("mixed", tuple(seq), tzm))
+        true_utc = [t - tzm * 60 for t in seq]
+        want = [b"%04d%02d%02dT%02d%02d%02d:" % gen.civil(t) + syslog_line(l, i) for i, (t, l) in enumerate(zip(true_utc, seq))][1:]
+        for (bsz, f), (args, r) in outs.items():
+            res.count()
+            base = outs[(bsz, "messages")][1]
+            bad = None
+            if r.timed_out or r.rc not in (0, 1):
+                bad = "crash"
+            elif f == "messages":
+                got = r.out.split(b"\n")[:-1]
+                if got[-len(want):] != want:
+                    bad = "wrong-year"
+            elif r.out != base.out:
+                bad = "streamed-differs-from-plain"
+            if bad:
+                res.violation({"kind": "mixed-notation", "container": f.rsplit(".", 1)[-1] if "." in f else "plain", "symptom": bad, "wraps": min(wraps(seq), 2), "tz_nonzero": tzm != 0},
+                              "year-less log with one ISO-stamped second line, tz %s blocksz %d %s: printed %r (plain file: %r)" % (tzs_, bsz, f, r.out[:200], base.out[:200]),
+                              {"engine": "E-CLI", "args": args, "container": "mixed:" + f, "data": common.b64(data), "mtime": mtime_utc})
+
+
 def run(tier, seed, build=True):
     if build:
         common.build_real()
@@ -195,6 +251,7 @@ def run(tier, seed, build=True):
                         [b"%s %d %02d:%02d:%02d" % (MON[gen.civil(t)[1] - 1].encode(), gen.civil(t)[2], gen.civil(t)[3], gen.civil(t)[4], gen.civil(t)[5]) for t in seq],
                         tzs_, mtime_utc, cont, bsz, a, b, r.out[:140], exp[:140]),
                         {"engine": "E-CLI", "args": args, "container": cont, "data": common.b64(data), "mtime": mtime_utc})
+        mixed_leg(res, tier, seqs, work)
         res.sample({"local_stamps": ["Dec 30 23:59:59", "Dec 31 23:59:59", "Jan  1 01:59:59"], "tz": "+13:00", "mtime": "last message + 1 s", "container": "gz (header mtime)"})
         res.coverage["rule"] = ("year-less syslog logs of 1..3/5 messages from 4 start dates x every gap pattern over {1 s, 1 day, 26 h, 40 days, 200 days} keeping only logs whose year boundaries are visible "
                                 "Dec->Jan wraps (0..3 wraps; 29-Feb cases excluded, Issue #245) x mtime positions within the last message's year x -t {-11:00,0,+13:00} x {plain, gz header mtime, tar member mtime, bz2} "
@@ -216,6 +273,8 @@ def replay(path, build=True):
         data = base64.b64decode(r["data"])
         fn = r["args"][-1]
         mt = r["mtime"]
+        if r["container"].startswith("mixed:"):
+            r["container"] = {"messages": "plain", "messages.gz": "gz", "messages.bz2": "bz2"}[r["container"][6:]]
         if r["container"] == "plain":
             common.write_file(os.path.join(work, fn), data)
             os.utime(os.path.join(work, fn), (mt, mt))
